@@ -188,8 +188,11 @@ def run_rdms(ctx, chunked, dtype='float', caller_order=None, unique_events=False
     if chunked and len(centers) <= 1000:
         ctx.notes.append(f'chunked case has only {len(centers)} centres')
         return
-    ok, rd = ctx.guarded(check, sig, SL.get_searchlight_RDMs, data, centers, neighbors, events, method=method,
-                         verbose=False, data=wit)
+    if len(centers) % 2:      # the options by position in their documented order, or by keyword
+        ok, rd = ctx.guarded(check, sig, SL.get_searchlight_RDMs, data, centers, neighbors, events, method, False, data=wit)
+    else:
+        ok, rd = ctx.guarded(check, sig, SL.get_searchlight_RDMs, data, centers, neighbors, events, method=method,
+                             verbose=False, data=wit)
     if not ok:
         return
     ctx.case(check, sig, sample={'shape': shape, 'n_centers': len(centers), 'method': method, 'radius': radius})
@@ -224,13 +227,18 @@ def slow_eval(models, x, method='corr', theta=None):
     return dict(voxel=vox, value=val, pid=os.getpid(), start=t0, end=time.monotonic())
 
 
-def run_schedules(ctx, weighted=False, reorder=False):
+def run_schedules(ctx, weighted=False, reorder=False, two_runs=False):
     from rsatoolbox.model import ModelFixed
     rng = ctx.rng
     n = int(rng.integers(10, 17))
     n_cond = 5
     vecs = gen.rdm_vectors(rng, n, n_cond, 'pos')
     vox = [int(v) for v in rng.permutation(200)[:n]]
+    if two_runs:
+        # the searchlight RDMs of two runs over the same mask, concatenated: every centre occurs twice, with different
+        # RDMs -- one result per RDM of the object, in its order
+        n = 2 * (n // 2)
+        vecs, vox = vecs[:n], vox[:n // 2] * 2
     from rsatoolbox.model import ModelWeighted
     if weighted:     # explicit parameters must reach the evaluation function for every n_jobs
         model = ModelWeighted('w', RDMs(gen.rdm_vectors(rng, 2, n_cond, 'pos')))
@@ -240,11 +248,19 @@ def run_schedules(ctx, weighted=False, reorder=False):
     else:
         model = ModelFixed('m', RDMs(gen.rdm_vectors(rng, 1, n_cond, 'pos')))
         theta, direct = None, None
+        if two_runs:
+            direct = [float(np.mean(__import__('rsatoolbox').rdm.compare(model.predict_rdm(), RDMs(v.reshape(1, -1)), 'corr')))
+                      for v in vecs]
     reordered_seen = False
     orders = []
     for attempt, scale in enumerate((0.004, 0.012, 0.03)):
         delays = [scale * (n - i) for i in range(n)]       # later centres finish first
         sl = RDMs(vecs.copy(), rdm_descriptors={'voxel_index': vox, 'delay': delays})
+        if two_runs:
+            from rsatoolbox.rdm import concat
+            h = n // 2
+            sl = concat(RDMs(vecs[:h].copy(), rdm_descriptors={'voxel_index': vox[:h], 'delay': delays[:h]}),
+                        RDMs(vecs[h:].copy(), rdm_descriptors={'voxel_index': vox[h:], 'delay': delays[h:]}))
         if attempt == 0 and reorder:
             # the searchlight RDMs are a selection in the caller's order (a region of interest picked out of a whole-brain
             # result): the library-managed 'index' then no longer counts 0..n-1; results follow the order of the object
@@ -271,7 +287,7 @@ def run_schedules(ctx, weighted=False, reorder=False):
                 return
             if direct is not None and not close(np.array([r['value'] for r in res]), np.array(direct), 1e-12, 1e-14):
                 ctx.fail('parallel_order', dict(sig, what='theta_not_forwarded'), f'n_jobs={n_jobs}: values are not those of '
-                         f'the model at the parameters passed as theta', wit(theta=theta))
+                         f'the model at the parameters passed as theta (or not those of the RDM at that position)', wit(theta=theta))
                 return
             if base is None:
                 base = [r['value'] for r in res]
@@ -305,6 +321,7 @@ def run(ctx):
         run_rdms(ctx, True, dtype='int8', caller_order=True)
         run_schedules(ctx, weighted=False, reorder=True)
         run_schedules(ctx, weighted=True, reorder=False)
+        run_schedules(ctx, weighted=False, reorder=False, two_runs=True)
     else:
         ctx.count('check:rdm_chunked')
         ctx.count('check:parallel_order')
